@@ -296,6 +296,19 @@ Example C12_self_needs_consistency :
   verify a a = [(FPrefixValid, Some (1%N, 64%N)); (FPrefixValid, Some (1%N, 64%N))].
 Proof. split; vm_compute; reflexivity. Qed.
 
+(* outside the model's wire image: when the codec REWRITES a domain name (ndp decodes punycode to
+   Unicode and drops a trailing dot; names are opaque tokens here), the own RA is reported against
+   its own wire image -- the candidate finding recorded by the driver's codec-unstable-name stream *)
+Definition rewrite_names (g : N -> N) (a : ra) : ra :=
+  mkRA (ra_hop a) (ra_managed a) (ra_other a) (ra_pref a) (ra_lifetime a) (ra_reachable a) (ra_retrans a)
+       (map (fun o => match o with ODNSSL t s => ODNSSL t (map g s) | o => o end) (ra_opts a)).
+Example C12_self_wire_rewritten_name_refuted :
+  exists a g, self_consistent a = true /\ verify a (rewrite_names g (wire_ra a)) = [(FDnsslNames, None)].
+Proof.
+  exists (mkRA 64 false false Medium 0 0 0 [ODNSSL (30 * sec) [20%N]]), (fun n => (n + 1)%N).
+  split; vm_compute; reflexivity.
+Qed.
+
 Example C12_example_hook :
   h_hook (handle_ra (Ok ex_ours) ex_theirs) = 1%N /\ h_logged (handle_ra (Ok ex_ours) ex_theirs) = 9%N /\
   h_hook (handle_ra (Ok ex_ours) (wire_ra ex_ours)) = 0%N.
